@@ -86,9 +86,12 @@ func RunsChain(lc addchain.Chain) (addchain.Chain, error) {
 
 	c := addchain.New()
 	s := map[uint]uint{} // current largest shift of each run length
-	for _, op := range p {
+	for k, op := range p {
 		a, b := bigint.MinMax(lc[op.I], lc[op.J])
-		if !a.IsUint64() || !b.IsUint64() {
+
+		// The operands are no larger than their sum lc[k+1], so checking the sum
+		// also guarantees that la+lb below cannot wrap around.
+		if !lc[k+1].IsUint64() {
 			return nil, errors.New("values in lengths chain are far too large")
 		}
 
